@@ -585,6 +585,10 @@ func mangle(c context, templateName string) string {
 		// The rel values of a link element select the sanitizer of its href.
 		s += "_rel" + c.linkRel
 	}
+	if c.scriptType != "" {
+		// The output context of the called template carries the type of the script element.
+		s += "_type(" + c.scriptType + ")"
+	}
 	return s + attrValuePrefixClass(c)
 }
 
